@@ -249,3 +249,24 @@ Example C11_chunk_calls_example :
   chunk_calls (fun j => N.eqb j 30) 28 8 0 = (3, true) /\
   chunk_calls (fun j => N.eqb j 30) 32 8 0 = (8, false).
 Proof. vm_compute. split; reflexivity. Qed.
+
+(* tie of the acceptor to the step function: a worker standing at the loop head of do_work_chunk with
+   e = i + fuel < 2^bits that takes 2 * (predicted number of calls) of its own steps has entered f for
+   exactly i, i+1, ... (that many indices, in order), stands at the exception exchange for the first
+   throwing index iff [chunk_calls] reports a throw and otherwise at the loop head with i = e, and has
+   touched neither the queues, the join counter nor the completion *)
+Theorem C11_chunk_calls_is_the_models_loop : forall cf t off idx fuel i e g,
+  e = i + N.of_nat fuel -> e < 2 ^ cbits cf ->
+  let r := chunk_calls (cthrows cf) i fuel 0 in
+  let k := N.to_nat (fst r) in
+  let c' := solo cf t (2 * k) (g, BRun off idx i e) in
+  map fst (calls (fst c')) = rev (map (fun d => i + N.of_nat d) (seq 0 k)) ++ map fst (calls g) /\
+  snd c' = (if snd r then BExch (i + fst r - 1) else BRun off idx e e) /\
+  sigs (fst c') = sigs g /\ remaining (fst c') = remaining g /\ queues (fst c') = queues g.
+Proof. exact solo_chunk. Qed.
+Print Assumptions C11_chunk_calls_is_the_models_loop.
+
+Example C11_chunk_loop_example :
+  let c' := solo tr_cf 0 2 (binit_shared tr_cf, BRun 0 0 0 3) in
+  map fst (calls (fst c')) = [0] /\ snd c' = BExch 0 /\ 0 + N.of_nat 3 < 2 ^ cbits tr_cf.
+Proof. vm_compute. repeat split; reflexivity. Qed.
